@@ -121,6 +121,7 @@ class SE:
             t = c.fresh('truthy', BoolSort())
             st.pc.append(Implies(v[1] == c.null, Not(t)))
             st.pc.append(Implies(c.isa(v[1], *IR_CLASSES), t))
+            if 'HRef' in c.C: st.pc.append(Implies(c.isa(v[1], 'HRef'), t))     # HRef defines neither __bool__ nor __len__
             st.pc.append(Implies(v[1] == c.pyTrue, t)); st.pc.append(Implies(v[1] == c.pyFalse, Not(t)))
             return t
         if k == 'list': return self.ctx.len(v[1]) > 0
@@ -858,6 +859,8 @@ class SE:
             return self.ev(st, t.value, lambda s, cv: self.ev(s, t.slice, lambda s2, i: self.delitem(s2, cv, i, nxt)))
         if isinstance(s0, ast.For):
             return self.spec.loop(self, st, s0, nxt, k_ret, k_brk, k_cnt)
+        if isinstance(s0, ast.While) and hasattr(self.spec, 'while_loop') and not s0.orelse:
+            return self.spec.while_loop(self, st, s0, nxt, k_ret)
         if isinstance(s0, ast.Break):
             if k_brk is None: raise Unsupported('break outside a handled loop')
             return k_brk(st)
